@@ -89,7 +89,9 @@ def cases(tier):
 def dom_digest(D):
     P = abs_domain(D)
     sigs = [(n, [(k, t.name) for k, t in a.signature.items()]) for n, a in D.actions.items()]
-    return repr((abs_key(P), sigs, sorted(D.types), sorted(D.constants), sorted(D.predicates), sorted(D.functions)))
+    values = sorted((n, repr(getattr(f, "value", None)), sorted(getattr(f, "repeating_variables", {}) or {}))
+                    for n, f in D.functions.items())
+    return repr((abs_key(P), sigs, sorted(D.types), sorted(D.constants), sorted(D.predicates), sorted(D.functions), values))
 
 
 def default_types_digest():
